@@ -19,7 +19,11 @@ EXPLANATION = (
     "failures). Each site is discharged by D1 magnitude classes (an interprocedural fixpoint classifying every "
     "integer as Small / memory-bounded / caller-supplied width / parsed from the document), D2 a dominating guard, "
     "the shared-borrow rule for RefCell, or D3 a reviewed row of tables/panic_sites.txt naming the invariant it leans "
-    "on; anything else is a violation. (B) Every call-graph cycle has a depth driver that is not the document depth "
+    "on; anything else is a violation. Site keys are canonical (independent of variable names) and include the guards "
+    "in force at the site (the conditions it is control dependent on, also at a closure's creation site), so a reviewed "
+    "row does not survive a change of the guard it argued from; rows carry the number of sites they cover; magnitude "
+    "classes follow what closures passed to iterator adaptors return; interval bounds (masks, shifts, narrowing casts) "
+    "discharge small-range arithmetic. (B) Every call-graph cycle has a depth driver that is not the document depth "
     "(self-calls on strict sub-slices, memoised estimates); the tree walks go through the iterative "
     "tree_map_reduce; Node has an iterative Drop. (C) Every loop is driven by a finite iterator or passes a progress "
     "anchor on every cycle (tables/loops.txt). (D) Only TooNarrow can leave a render route: the other Error "
